@@ -102,10 +102,13 @@ class Scenario:
             self.objects["parent"] = t
             self.objects["sibling"] = t["s"]
         elif form == "donor":
-            x = Vector(list(vals), name="x")
-            s = Vector([10, 20, 30][:len(vals)], name="s")
-            self.objects["built"] = Table([x, s])
+            # while the table is built the donors are reachable ONLY through the list handed to Table(...) (a program that builds
+            # its columns in a list comprehension): nothing but that list keeps them alive, and they are still the caller's
+            cols = [Vector(list(vals), name="x"), Vector([10, 20, 30][:len(vals)], name="s"), Vector([7, 8, 9][:len(vals)], name="u")]
+            self.objects["built"] = Table(cols)
+            x, s = cols[0], cols[1]
             self.objects["other-donor"] = s
+            self.objects["third-donor"] = cols[2]
         elif form == "rewritten":
             # an earlier None write made the dtype nullable; the None is gone again
             x = Vector(list(vals), name="x")
